@@ -145,6 +145,12 @@ impl NavigationState {
     }
 
 
+    /// Reset for a new expression: the place markers hold ids of the old expression, so they are forgotten too
+    pub fn reset_for_new_mathml(&mut self) {
+        self.reset();
+        self.place_markers = Default::default();
+    }
+
     // defining reset_start_time because of the following message if done inline
     // attributes on expressions are experimental
     // see issue #15701 <https://github.com/rust-lang/rust/issues/15701> for more information
